@@ -5,8 +5,9 @@ Creates /tmp/<round-tag>-<Cxx> (detached worktree of /repo HEAD) and /tmp/<round
 import json, os, subprocess, sys
 HERE = os.path.dirname(os.path.dirname(os.path.abspath(__file__)))
 tag, cl = sys.argv[1], json.load(open(sys.argv[2]))
+TEMPLATE = sys.argv[3] if len(sys.argv) > 3 else "tools/prompts/seeded_change_clause.txt"
 props = {json.loads(l)["id"]: json.loads(l) for l in open(os.path.join(HERE, "properties.jsonl"))}
-tmpl = open(os.path.join(HERE, "tools/prompts/seeded_change_clause.txt")).read()
+tmpl = open(os.path.join(HERE, TEMPLATE)).read()
 for pid, clause in cl.items():
     d = f"/tmp/{tag}-{pid}"
     if not os.path.isdir(d):
